@@ -3,6 +3,8 @@ package rules
 import (
 	"fmt"
 	"go/ast"
+	"go/constant"
+	"go/parser"
 	"go/token"
 	"go/types"
 	"golang.org/x/tools/go/packages"
@@ -90,7 +92,36 @@ func (e *Env) RCursor(withFileOrder bool) {
 		}
 		fname := load.FuncName(fd)
 		generated := fd.Name.Name == "restoreNode" // the generated cases are checked through the schema events
+		// statements of line-break blocks are decided by their effect (lineBreaksAdvance)
+		var lbStmts []ast.Stmt
+		if fd.Name.Name == "applySpace" || fd.Name.Name == "applyDecorations" {
+			for _, blk := range e.lineBreakBlocks(info, fd) {
+				lbStmts = append(lbStmts, blk...)
+			}
+		}
+		inLB := func(n ast.Node) bool {
+			for _, st := range lbStmts {
+				if st.Pos() <= n.Pos() && n.End() <= st.End() {
+					if _, nested := st.(*ast.AssignStmt); nested {
+						return true
+					}
+					if _, nested := st.(*ast.IncDecStmt); nested {
+						return true
+					}
+				}
+			}
+			return false
+		}
 		ast.Inspect(fd.Body, func(n ast.Node) bool {
+			if st, ok := n.(ast.Stmt); ok && inLB(st) {
+				switch st.(type) {
+				case *ast.AssignStmt, *ast.IncDecStmt:
+					nCursor++
+					nLines++
+					nMarker++
+					return false
+				}
+			}
 			switch s := n.(type) {
 			case *ast.IncDecStmt:
 				if isCursor(s.X) {
@@ -259,6 +290,12 @@ func (e *Env) linesStore(c *schema.Ctx, info *types.Info, fd *ast.FuncDecl, s *a
 	if !ok || len(call.Args) != 2 || c.ExprStr(call.Fun) != "append" || c.ExprStr(call.Args[0]) != "r.lines" {
 		return false, "the line table is append-only: expected append(r.lines, <offset>)"
 	}
+	if why, ok := e.offsetSum(c, info, fd, call.Args[1]); ok {
+		if why == "" {
+			return true, ""
+		}
+		return false, "line offsets are relative to the file base: " + why
+	}
 	// inline single-assignment locals (hoisted sub-expressions) before comparing
 	o := e.inlineLocals(c, info, fd, call.Args[1], s.Pos(), 0)
 	if o == "int(r.cursor) - r.base" {
@@ -285,6 +322,9 @@ func (e *Env) linesStore(c *schema.Ctx, info *types.Info, fd *ast.FuncDecl, s *a
 		}
 		return false, "offset adds " + ix + ", which is not the byte index of an enclosing range over the text"
 	}
+	// sum form: the offset, with locals replaced by their definitions, is
+	// int(r.cursor) - r.base plus forward terms (the byte index of a range over the text, a
+	// string-search result, a running count of bytes already searched, a length, a constant >= 0)
 	// accumulator form: a local that starts at the base-relative cursor and is only ever moved
 	// forward (by a positive constant, a length, or the result of a string search)
 	if id, ok := call.Args[1].(*ast.Ident); ok {
@@ -519,8 +559,224 @@ func (e *Env) RSearchLoops(pkgs []*packages.Package) {
 	e.Run.Analysed("search-result comparisons in loops", n)
 }
 
-// lineBreaksAdvance: after every non-indexed line-table append the cursor advances (r.cursor++)
-// before the block ends, and the fresh-line marker is set right after.
+// ---- line-break blocks, decided on their effect ------------------------------------------------
+// A line-break block is the innermost statement block that appends a plain (not byte-indexed)
+// offset to the line table. Its statements are evaluated symbolically over c0 = the cursor on
+// entry: r.cursor++ / += k / = E, locals defined from the cursor, the appended offset
+// int(E) - r.base, the marker store. The rules speak about the effect, not the statements:
+//   recorded line start = c0 + a;  cursor on exit = c0 + b;  marker on exit = cursor on exit.
+
+type lbEffect struct {
+	starts    []int // a for every append
+	exit      int   // b
+	markerSet bool
+	markerVal int // relative to c0
+	why       string
+	pos       token.Pos
+}
+
+func (e *Env) lineBreakEffect(info *types.Info, block []ast.Stmt) lbEffect {
+	eff := lbEffect{}
+	cur := 0
+	pos := map[types.Object]int{}  // token.Pos locals: value - c0
+	offs := map[types.Object]int{} // int locals: value - (c0 - base)
+	isCursor := func(x ast.Expr) bool { return e.isRestorerField(info, ast.Unparen(x), "cursor") }
+	isBase := func(x ast.Expr) bool { return e.isRestorerField(info, ast.Unparen(x), "base") }
+	constInt := func(x ast.Expr) (int, bool) {
+		x = ast.Unparen(x)
+		if cl, ok := x.(*ast.CallExpr); ok && len(cl.Args) == 1 {
+			if tv, ok := info.Types[cl.Fun]; ok && tv.IsType() {
+				x = ast.Unparen(cl.Args[0])
+			}
+		}
+		if tv, ok := info.Types[x]; ok && tv.Value != nil && tv.Value.Kind() == constant.Int {
+			v, ok := constant.Int64Val(tv.Value)
+			return int(v), ok
+		}
+		return 0, false
+	}
+	var posVal func(x ast.Expr) (int, bool) // token.Pos-valued, relative to c0
+	posVal = func(x ast.Expr) (int, bool) {
+		x = ast.Unparen(x)
+		if isCursor(x) {
+			return cur, true
+		}
+		switch v := x.(type) {
+		case *ast.Ident:
+			r, ok := pos[info.Uses[v]]
+			return r, ok
+		case *ast.BinaryExpr:
+			if v.Op == token.ADD {
+				if a, ok := posVal(v.X); ok {
+					if k, ok := constInt(v.Y); ok {
+						return a + k, true
+					}
+				}
+				if a, ok := posVal(v.Y); ok {
+					if k, ok := constInt(v.X); ok {
+						return a + k, true
+					}
+				}
+			}
+		}
+		return 0, false
+	}
+	var offVal func(x ast.Expr) (int, bool) // int-valued file offset, relative to c0 - base
+	offVal = func(x ast.Expr) (int, bool) {
+		x = ast.Unparen(x)
+		switch v := x.(type) {
+		case *ast.Ident:
+			r, ok := offs[info.Uses[v]]
+			return r, ok
+		case *ast.BinaryExpr:
+			if v.Op == token.SUB && isBase(v.Y) {
+				if cl, ok := ast.Unparen(v.X).(*ast.CallExpr); ok && len(cl.Args) == 1 {
+					if tv, ok := info.Types[cl.Fun]; ok && tv.IsType() {
+						return posVal(cl.Args[0])
+					}
+				}
+			}
+			if v.Op == token.ADD {
+				if a, ok := offVal(v.X); ok {
+					if k, ok := constInt(v.Y); ok {
+						return a + k, true
+					}
+				}
+			}
+		}
+		return 0, false
+	}
+	for _, st := range block {
+		switch x := st.(type) {
+		case *ast.IncDecStmt:
+			if isCursor(x.X) {
+				if x.Tok == token.INC {
+					cur++
+				} else {
+					cur--
+				}
+			}
+		case *ast.AssignStmt:
+			if len(x.Lhs) != 1 || len(x.Rhs) != 1 {
+				continue
+			}
+			l, r := x.Lhs[0], x.Rhs[0]
+			switch {
+			case isCursor(l):
+				switch x.Tok {
+				case token.ADD_ASSIGN:
+					k, ok := constInt(r)
+					if !ok {
+						eff.why = "cursor advanced by a non-constant inside a line-break block"
+						eff.pos = x.Pos()
+						return eff
+					}
+					cur += k
+				case token.ASSIGN:
+					v, ok := posVal(r)
+					if !ok {
+						eff.why = "cursor set to a value that is not derived from the cursor"
+						eff.pos = x.Pos()
+						return eff
+					}
+					cur = v
+				default:
+					eff.why = "cursor operator " + x.Tok.String()
+					eff.pos = x.Pos()
+					return eff
+				}
+			case e.isRestorerField(info, l, "lines"):
+				cl, ok := ast.Unparen(r).(*ast.CallExpr)
+				if !ok || len(cl.Args) != 2 {
+					eff.why = "line table store is not append(r.lines, offset)"
+					eff.pos = x.Pos()
+					return eff
+				}
+				a, ok := offVal(cl.Args[1])
+				if !ok {
+					eff.why = "recorded offset is not int(<cursor-derived position>) - r.base"
+					eff.pos = x.Pos()
+					return eff
+				}
+				eff.starts = append(eff.starts, a)
+			case e.isRestorerField(info, l, "cursorAtNewLine"):
+				v, ok := posVal(r)
+				if !ok {
+					eff.why = "marker set to a value that is not derived from the cursor"
+					eff.pos = x.Pos()
+					return eff
+				}
+				eff.markerSet, eff.markerVal = true, v
+			default:
+				id, ok := l.(*ast.Ident)
+				if !ok {
+					continue
+				}
+				o := info.Defs[id]
+				if o == nil {
+					o = info.Uses[id]
+				}
+				if o == nil {
+					continue
+				}
+				if isTokenPos(o.Type()) {
+					if v, ok := posVal(r); ok {
+						pos[o] = v
+					} else {
+						delete(pos, o)
+					}
+				} else if v, ok := offVal(r); ok {
+					offs[o] = v
+				} else {
+					delete(offs, o)
+				}
+			}
+		}
+	}
+	eff.exit = cur
+	return eff
+}
+
+// lineBreakBlocks: the innermost blocks of fd that append a plain offset to the line table.
+func (e *Env) lineBreakBlocks(info *types.Info, fd *ast.FuncDecl) [][]ast.Stmt {
+	var out [][]ast.Stmt
+	ast.Inspect(fd.Body, func(nd ast.Node) bool {
+		blk, ok := nd.(*ast.BlockStmt)
+		if !ok {
+			return true
+		}
+		for _, st := range blk.List {
+			as, ok := st.(*ast.AssignStmt)
+			if !ok || len(as.Lhs) != 1 || !e.isRestorerField(info, as.Lhs[0], "lines") {
+				continue
+			}
+			// byte-indexed entries (line starts inside a literal or comment, in a loop over its
+			// text) do not move the cursor: the caller advances by len(text)
+			inTextLoop := false
+			ast.Inspect(fd.Body, func(x ast.Node) bool {
+				switch l := x.(type) {
+				case *ast.RangeStmt:
+					if l.Body.Pos() <= as.Pos() && as.End() <= l.Body.End() {
+						if b, ok := info.TypeOf(l.X).Underlying().(*types.Basic); ok && b.Info()&types.IsString != 0 {
+							inTextLoop = true
+						}
+					}
+				}
+				return true
+			})
+			if !inTextLoop {
+				out = append(out, blk.List)
+				break
+			}
+		}
+		return true
+	})
+	return out
+}
+
+// lineBreaksAdvance: every line-break block records its line start(s) at or after the entry
+// cursor, leaves the cursor strictly behind the last recorded line start (it steps over the
+// newline byte), and sets the fresh-line marker to the exit cursor.
 func (e *Env) lineBreaksAdvance(c *schema.Ctx) {
 	pkg := e.Prog.Pkg(load.PkgDecorator)
 	info := pkg.TypesInfo
@@ -531,41 +787,19 @@ func (e *Env) lineBreaksAdvance(c *schema.Ctx) {
 			e.Run.Violation("R-CURSOR", name+" exists", "", "function missing")
 			continue
 		}
-		ast.Inspect(fd.Body, func(nd ast.Node) bool {
-			blk, ok := nd.(*ast.BlockStmt)
-			if !ok {
-				return true
+		for _, blk := range e.lineBreakBlocks(info, fd) {
+			n++
+			eff := e.lineBreakEffect(info, blk)
+			key := fmt.Sprintf("%s: line break advances the cursor and sets the fresh-line marker", name)
+			if eff.why != "" {
+				e.Run.Check("R-CURSOR", key, e.Prog.Pos(eff.pos), false, eff.why)
+				continue
 			}
-			for i, st := range blk.List {
-				as, ok := st.(*ast.AssignStmt)
-				if !ok || len(as.Lhs) != 1 || !e.isRestorerField(info, as.Lhs[0], "lines") {
-					continue
-				}
-				// indexed appends (inside a range over the text) are covered by the caller's len() advance
-				if id, ok := as.Rhs[0].(*ast.CallExpr).Args[1].(*ast.Ident); ok {
-					_ = id
-				}
-				inIndexed := false
-				ast.Inspect(fd.Body, func(x ast.Node) bool {
-					if rs, ok := x.(*ast.RangeStmt); ok && rs.Body.Pos() <= as.Pos() && as.End() <= rs.Body.End() {
-						if b, ok := info.TypeOf(rs.X).Underlying().(*types.Basic); ok && b.Info()&types.IsString != 0 {
-							inIndexed = true
-						}
-					}
-					return true
-				})
-				if inIndexed {
-					continue
-				}
-				n++
-				rest := blk.List[i+1:]
-				adv := len(rest) >= 1 && stmtNorm(c, rest[0]) == "r.cursor++"
-				mark := len(rest) >= 2 && stmtNorm(c, rest[1]) == "r.cursorAtNewLine = r.cursor"
-				e.Run.Check("R-CURSOR", fmt.Sprintf("%s: line break advances the cursor and sets the fresh-line marker", name), e.Prog.Pos(as.Pos()), adv && mark,
-					"after recording a line start the cursor must step over the newline byte (r.cursor++) and the marker must be set to the new cursor; otherwise two line starts can coincide (SetLines fails) or the next spacing is miscounted")
-			}
-			return true
-		})
+			good := len(eff.starts) == 1 && eff.starts[0] >= 0 && eff.exit > eff.starts[0] && eff.markerSet && eff.markerVal == eff.exit
+			e.Run.Check("R-CURSOR", key, e.Prog.Pos(blk[0].Pos()), good,
+				fmt.Sprintf("effect of the block over the entry cursor c0: line starts recorded at c0+%v, cursor on exit c0+%d, marker set=%v to c0+%d — one line start must be recorded at or after c0, the cursor must end strictly after it (it steps over the newline byte) and the marker must equal the exit cursor; otherwise two line starts can coincide (SetLines fails) or the next spacing is miscounted",
+					eff.starts, eff.exit, eff.markerSet, eff.markerVal))
+		}
 	}
 	e.Run.Floor("R-CURSOR", "line-break sites", n, 1)
 }
@@ -638,42 +872,76 @@ func (e *Env) fileSizeCovers(c *schema.Ctx) {
 		return
 	}
 	pos := e.Prog.Pos(fd.Pos())
-	okInit, okRet, okGrow := false, false, true
-	for _, st := range fd.Body.List {
-		s := stmtNorm(c, st)
-		if s == "end := int(r.cursor)" {
-			okInit = true
-		}
-		if s == "return end - r.base" {
-			okRet = true
+	info := pkg.TypesInfo
+	undo := c.InstallReaching(fd)
+	defer undo()
+	// the accumulator: the variable the function returns minus the base
+	var endObj types.Object
+	okRet := false
+	rets, _ := returnsOf(c, fd)
+	for _, r := range rets {
+		if len(r.results) == 1 && strings.HasSuffix(r.results[0], " - r.base") {
+			name := strings.TrimSuffix(r.results[0], " - r.base")
+			ast.Inspect(fd.Body, func(n ast.Node) bool {
+				if id, ok := n.(*ast.Ident); ok && id.Name == name && info.Defs[id] != nil && endObj == nil {
+					endObj = info.Defs[id]
+				}
+				return true
+			})
+			okRet = endObj != nil
+		} else {
+			okRet = false
 		}
 	}
-	ast.Inspect(fd.Body, func(n ast.Node) bool {
-		as, ok := n.(*ast.AssignStmt)
-		if !ok || as.Tok != token.ASSIGN || len(as.Lhs) != 1 || c.ExprStr(as.Lhs[0]) != "end" {
-			return true
-		}
-		// must sit under `if X >= end` and assign X + 1
-		r := c.ExprStr(as.Rhs[0])
-		if !strings.HasSuffix(r, " + 1") {
-			okGrow = false
-			return true
-		}
-		x := strings.TrimSuffix(r, " + 1")
-		guarded := false
-		ast.Inspect(fd.Body, func(m ast.Node) bool {
-			if is, ok := m.(*ast.IfStmt); ok && is.Body.Pos() <= as.Pos() && as.End() <= is.Body.End() && c.ExprStr(is.Cond) == x+" >= end" {
-				guarded = true
+	okInit, okGrow, nGrow := false, true, 0
+	if endObj != nil {
+		ast.Inspect(fd.Body, func(n ast.Node) bool {
+			as, ok := n.(*ast.AssignStmt)
+			if !ok || len(as.Lhs) != 1 || len(as.Rhs) != 1 {
+				return true
+			}
+			id, ok := as.Lhs[0].(*ast.Ident)
+			if !ok || (info.Defs[id] != endObj && info.Uses[id] != endObj) {
+				return true
+			}
+			if as.Tok == token.DEFINE {
+				okInit = c.ExprStr(as.Rhs[0]) == "int(r.cursor)"
+				return true
+			}
+			// raised to X+1, and only where X >= end is known
+			nGrow++
+			r := canonText(c.ExprStr(as.Rhs[0]))
+			if as.Tok != token.ASSIGN || !strings.HasSuffix(r, " + 1") {
+				okGrow = false
+				return true
+			}
+			x := strings.TrimSuffix(r, " + 1")
+			// innermost function body that contains the assignment
+			body := fd.Body.List
+			ast.Inspect(fd.Body, func(m ast.Node) bool {
+				if fl, ok := m.(*ast.FuncLit); ok && fl.Body.Pos() <= as.Pos() && as.End() <= fl.Body.End() {
+					body = fl.Body.List
+				}
+				return true
+			})
+			cond, okc := pathCond(c, body, as)
+			guarded := false
+			if okc {
+				for _, cj := range splitTop(cond, " && ") {
+					cj = canonText(strings.TrimSpace(cj))
+					if cj == x+" >= "+endObj.Name() || cj == endObj.Name()+" <= "+x {
+						guarded = true
+					}
+				}
+			}
+			if !guarded {
+				okGrow = false
 			}
 			return true
 		})
-		if !guarded {
-			okGrow = false
-		}
-		return true
-	})
-	e.Run.Check("R-CURSOR", "fileSize covers the cursor and only grows", pos, okInit && okRet && okGrow,
-		"expected end := int(r.cursor); end only raised to X+1 under X >= end; return end - r.base — so the registered size is ≥ every position assigned")
+	}
+	e.Run.Check("R-CURSOR", "fileSize covers the cursor and only grows", pos, okInit && okRet && okGrow && nGrow > 0,
+		"expected an accumulator that starts at int(r.cursor), is only raised to X+1 where X >= it is known, and is returned minus r.base — so the registered size is ≥ every position assigned")
 }
 
 // ---------------------------------------------------------------------------------------------
@@ -823,4 +1091,190 @@ func replaceIdent(s, name, rep string) string {
 		i++
 	}
 	return b.String()
+}
+
+// offsetSum: x, printed over reaching definitions, as a flat sum. ok=false: not a +/- sum that
+// mentions the cursor at all (other forms apply). why != "": a sum, but not a legal offset.
+func (e *Env) offsetSum(c *schema.Ctx, info *types.Info, fd *ast.FuncDecl, x ast.Expr) (why string, ok bool) {
+	undo := c.InstallReaching(fd)
+	text := c.ExprStr(x)
+	undo()
+	expr, err := parser.ParseExpr(text)
+	if err != nil {
+		return "", false
+	}
+	type term struct {
+		x   ast.Expr
+		neg bool
+	}
+	var terms []term
+	var flat func(e ast.Expr, neg bool)
+	flat = func(e ast.Expr, neg bool) {
+		e = ast.Unparen(e)
+		if be, ok := e.(*ast.BinaryExpr); ok && (be.Op == token.ADD || be.Op == token.SUB) {
+			flat(be.X, neg)
+			flat(be.Y, neg != (be.Op == token.SUB))
+			return
+		}
+		terms = append(terms, term{e, neg})
+	}
+	flat(expr, false)
+	nCursor, nBase := 0, 0
+	var rest []term
+	for _, t := range terms {
+		s := types.ExprString(t.x)
+		switch {
+		case s == "int(r.cursor)" && !t.neg:
+			nCursor++
+		case s == "r.base" && t.neg:
+			nBase++
+		default:
+			rest = append(rest, t)
+		}
+	}
+	if nCursor == 0 && nBase == 0 {
+		return "", false
+	}
+	if nCursor != 1 || nBase != 1 {
+		return fmt.Sprintf("`%s` has %d cursor terms and %d base terms (one of each expected)", text, nCursor, nBase), true
+	}
+	// names → objects of the function (for forward-term checks)
+	lookup := func(name string) types.Object {
+		var o types.Object
+		ast.Inspect(fd.Body, func(n ast.Node) bool {
+			if id, ok := n.(*ast.Ident); ok && id.Name == name && o == nil {
+				if d := info.Defs[id]; d != nil {
+					o = d
+				}
+			}
+			return true
+		})
+		return o
+	}
+	for _, t := range rest {
+		if t.neg {
+			return "`" + types.ExprString(t.x) + "` is subtracted from the offset", true
+		}
+		switch v := t.x.(type) {
+		case *ast.BasicLit:
+			continue
+		case *ast.CallExpr:
+			fn := types.ExprString(v.Fun)
+			if fn == "len" || strings.HasPrefix(fn, "strings.Index") || strings.HasPrefix(fn, "strings.LastIndex") || strings.HasPrefix(fn, "bytes.Index") {
+				continue
+			}
+		case *ast.Ident:
+			o := lookup(v.Name)
+			if o == nil {
+				break
+			}
+			// range key over a string
+			isKey := false
+			ast.Inspect(fd.Body, func(n ast.Node) bool {
+				if rs, ok := n.(*ast.RangeStmt); ok {
+					if kid, ok := rs.Key.(*ast.Ident); ok && info.Defs[kid] == o {
+						if b, ok := info.TypeOf(rs.X).Underlying().(*types.Basic); ok && b.Info()&types.IsString != 0 {
+							isKey = true
+						}
+					}
+				}
+				return true
+			})
+			if isKey || e.forwardCounter(info, fd, o) {
+				continue
+			}
+		}
+		return "`" + types.ExprString(t.x) + "` added to the offset is not a forward term (byte index, search result, running count, length, constant)", true
+	}
+	return "", true
+}
+
+// forwardCounter: an int local that starts at a constant >= 0 and is only increased (+=, ++, or
+// = itself + …) by constants >= 0, lengths, or string-search results.
+func (e *Env) forwardCounter(info *types.Info, fd *ast.FuncDecl, o types.Object) bool {
+	good, seen := true, false
+	nonneg := func(x ast.Expr) bool {
+		ok := true
+		var walk func(x ast.Expr)
+		walk = func(x ast.Expr) {
+			x = ast.Unparen(x)
+			if tv, found := info.Types[x]; found && tv.Value != nil {
+				if strings.HasPrefix(tv.Value.String(), "-") {
+					ok = false
+				}
+				return
+			}
+			switch v := x.(type) {
+			case *ast.BinaryExpr:
+				if v.Op != token.ADD {
+					ok = false
+					return
+				}
+				walk(v.X)
+				walk(v.Y)
+			case *ast.CallExpr:
+				if id, isID := v.Fun.(*ast.Ident); isID && id.Name == "len" {
+					return
+				}
+				if !isStringSearch(calleeFunc(info, v)) {
+					ok = false
+				}
+			case *ast.Ident:
+				// a local that only ever holds search results
+				so := info.Uses[v]
+				only := false
+				ast.Inspect(fd.Body, func(n ast.Node) bool {
+					if as, isAs := n.(*ast.AssignStmt); isAs && len(as.Lhs) == len(as.Rhs) {
+						for i, l := range as.Lhs {
+							if lid, isID := l.(*ast.Ident); isID && (info.Defs[lid] == so || info.Uses[lid] == so) {
+								if cl, isCall := as.Rhs[i].(*ast.CallExpr); isCall && isStringSearch(calleeFunc(info, cl)) {
+									only = true
+								} else {
+									ok = false
+								}
+							}
+						}
+					}
+					return true
+				})
+				if !only {
+					ok = false
+				}
+			default:
+				ok = false
+			}
+		}
+		walk(x)
+		return ok
+	}
+	ast.Inspect(fd.Body, func(n ast.Node) bool {
+		switch s := n.(type) {
+		case *ast.AssignStmt:
+			for i, l := range s.Lhs {
+				id, ok := l.(*ast.Ident)
+				if !ok || (info.Defs[id] != o && info.Uses[id] != o) || len(s.Lhs) != len(s.Rhs) {
+					continue
+				}
+				seen = true
+				switch s.Tok {
+				case token.DEFINE:
+					if tv, found := info.Types[s.Rhs[i]]; !found || tv.Value == nil || strings.HasPrefix(tv.Value.String(), "-") {
+						good = false
+					}
+				case token.ADD_ASSIGN:
+					if !nonneg(s.Rhs[i]) {
+						good = false
+					}
+				default:
+					good = false
+				}
+			}
+		case *ast.IncDecStmt:
+			if id, ok := s.X.(*ast.Ident); ok && info.Uses[id] == o && s.Tok != token.INC {
+				good = false
+			}
+		}
+		return true
+	})
+	return good && seen
 }
